@@ -6,7 +6,7 @@ from hypothesis import strategies as st
 
 from .. import gen
 from ..common import Crash, graph_from_json, guarded, inconclusive, invalid_config, ok, violation
-from ..models import CYC_CLASSES, MIN_CLASSES, ConstraintSpec, expand_nodes, run_model, solver_artifact, timed_out
+from ..models import CYC_CLASSES, MIN_CLASSES, ConstraintSpec, count_artifact, expand_nodes, run_model, solver_artifact, timed_out
 from ..oracle.routes import all_st_paths, check_route
 from ..oracle.width import dilworth
 
@@ -208,6 +208,8 @@ def run_case(case, tier="quick"):
     if cls in MIN_CLASSES:
         if n < w:
             return inconclusive(f"oracle disagreement: valid cover with {n} routes below the reference minimum {w}", labels)
+        if exact_constrained and n != wc and count_artifact(case, tier, n):
+            return inconclusive("solver artefact: number of routes changes with HiGHS presolve off", labels)
         if exact_constrained and n != wc:
             return violation("cover_not_minimum", f"{cls} returned {n} routes but the minimum is {wc}; routes={routes}", labels, facts=facts)
     else:
